@@ -304,7 +304,8 @@ submit_job_docsis128_sec_crc_dec_vaes_avx512(MB_MGR_DOCSIS_AES_OOO *state, IMB_J
 {
         (void) state;
 
-        if (job->msg_len_to_hash_in_bytes == 0) {
+        /* as in the other architectures: no CRC32 below the minimum Ethernet PDU size */
+        if (job->msg_len_to_hash_in_bytes < IMB_DOCSIS_CRC32_MIN_ETH_PDU_SIZE) {
                 if (job->msg_len_to_cipher_in_bytes == 0) {
                         /* NO cipher, NO CRC32 */
                         job->status |= IMB_STATUS_COMPLETED_CIPHER;
@@ -326,7 +327,8 @@ submit_job_docsis256_sec_crc_dec_vaes_avx512(MB_MGR_DOCSIS_AES_OOO *state, IMB_J
 {
         (void) state;
 
-        if (job->msg_len_to_hash_in_bytes == 0) {
+        /* as in the other architectures: no CRC32 below the minimum Ethernet PDU size */
+        if (job->msg_len_to_hash_in_bytes < IMB_DOCSIS_CRC32_MIN_ETH_PDU_SIZE) {
                 if (job->msg_len_to_cipher_in_bytes == 0) {
                         /* NO cipher, NO CRC32 */
                         job->status |= IMB_STATUS_COMPLETED_CIPHER;
